@@ -95,15 +95,18 @@ for d in sorted(glob.glob("/tmp/seed-H*/OUT/m*")):
         if os.path.exists(os.path.join(d, f)):
             shutil.copy(os.path.join(d, f), os.path.join(dst, f))
     key = name.replace("harmless-", "")
-    first = {}
+    first, final = {}, {}
+    for f in sorted(glob.glob(f"/tmp/seedres/harmless1/harmless-{key}-C*.out")):
+        k = f.rsplit("-", 1)[1][:-4]
+        first[k] = "VIOLATION" if "VIOLATION" in open(f).read() else "ok"
     for f in sorted(glob.glob(f"/tmp/seedres/harmless-{key}-C*.out")):
         k = f.rsplit("-", 1)[1][:-4]
-        t = open(f).read()
-        first[k] = "VIOLATION" if "VIOLATION" in t else "ok"
+        final[k] = "VIOLATION" if "VIOLATION" in open(f).read() else "ok"
     meta = {"seed": name, "kind": "behaviour-preserving rewrite by a sub-agent (differentially tested against the original by its author)",
             "all_twenty_quick_checks_first_run": first,
             "alarms_on_first_run": sorted(k for k, v in first.items() if v != "ok"),
-            "after_corrections": "all twenty quick checks pass (see DESIGN §12 for the correction each alarm led to)"}
+            "all_twenty_quick_checks_final_machinery": final,
+            "alarms_with_final_machinery": sorted(k for k, v in final.items() if v != "ok")}
     json.dump(meta, open(os.path.join(dst, "meta.json"), "w"), indent=1)
     harmless.append((name, meta))
 with open(os.path.join(ROOT, "README.md"), "w") as f:
@@ -120,6 +123,6 @@ with open(os.path.join(ROOT, "README.md"), "w") as f:
         f.write(f"| {name} | {pid} | {', '.join(short(k) for k in order)} |\n")
     f.write("\n## Behaviour-preserving rewrites (false-alarm experiment)\n\n| rewrite | alarms on first run | after corrections |\n|---|---|---|\n")
     for name, meta in harmless:
-        f.write(f"| {name} | {', '.join(meta['alarms_on_first_run']) or 'none'} | none |\n")
+        f.write(f"| {name} | {', '.join(meta['alarms_on_first_run']) or 'none'} | {', '.join(meta['alarms_with_final_machinery']) or 'none'} |\n")
     f.write("\n`input` = VIOLATION with a concrete failing input as replay; `no-input` = VIOLATION … no-failing-input-found (correspondence broken, oracles of that property pass); `—` = that check stayed green (the change does not touch that property's projection).\n")
 print(len(rows), "seeds")
